@@ -46,6 +46,12 @@ def ckMod (a b : Nat) : R Nat := if b = 0 then .error .other else .ok (a % b)
 /-- TRUSTED reading of `rand::distributions::Uniform::new_inclusive(lo, hi)`: the pair, `assert!(low <= high)` -/
 def uniformNewI32 (lo hi : Int) : R (Int × Int) := if lo ≤ hi then .ok (lo, hi) else .error .refused
 def uniformNewU64 (lo hi : Nat) : R (Nat × Nat) := if lo ≤ hi then .ok (lo, hi) else .error .refused
+/-- `l.take a ++ s ++ l.drop (a + s.length)`: write-back of a mutable sub-slice -/
+def splice (l : List Nat) (a : Nat) (s : List Nat) : List Nat := l.take a ++ s ++ l.drop (a + s.length)
+/-- TRUSTED reading of `from_raw_parts(words.as_ptr().add(off) as *const u8, 8·cnt)` (little-endian host): the bytes of `cnt` consecutive
+    words; reading past the end of the buffer is undefined behaviour, rendered as `.error .oob` -/
+def leBytes (l : List Nat) (off cnt : Nat) : R (List Nat) :=
+  if off + cnt ≤ l.length then .ok (((l.drop off).take cnt).flatMap fun w => (List.range 8).map fun b => w / 256 ^ b % 256) else .error .oob
 /-- `T: Rng`: the operations the samplers use on the generator state `σ` -/
 structure RngOps (σ : Type) where
   fill_bytes : σ → List Nat → R (σ × List Nat)
@@ -61,6 +67,28 @@ PTR_READ = re.compile(r"\* \( self \. buffer \. as_ptr \( \) \. add \( self \. b
 HOOK = re.compile(r'# \[ cfg \( feature = "verif" \) \] crate :: verif :: [^;]* ;')
 FLOAT_TESTS = {"util :: are_close_f64 ( 0.0 , NOISE_MAX_DEVIATION )": "Gen.NOISE_STD_DEV_X10 * Gen.NOISE_WIDTH_MULTIPLIER_X10 = 0",
                "util :: are_close_f64 ( 3.2 , NOISE_STANDARD_DEVIATION )": "Gen.NOISE_STD_DEV_X10 = 32"}
+def expand_readings(seed_words):
+    """skeleton of `Ciphertext::expand_seed` over the flat data buffer (TRUSTED; each key must occur exactly once):
+    by-value `self` that is returned = the buffer as `&mut`; `contains_seed()` = a Boolean input; `poly_mut(i)` = `&mut data[i·d .. (i+1)·d]`,
+    d = degree · moduli; `poly_component_mut(1, 0)` = `&mut data[n·(1·k+0) .. +n]` (bounds-checked), and the six pointer statements = the
+    64 bytes of the 8 words that follow its first word"""
+    D = "( cn * ck )"; OFF = "cn * ( 1 * ck + 0 )"
+    return [
+        ("fn expand_seed ( mut self , context : & HeContext ) -> Self {",
+         "fn expand_seed ( data : & mut [ u64 ] , size : usize , cn : usize , ck : usize , has_seed : bool , parms : & EncryptionParameters ) {"),
+        ("self . contains_seed ( )", "has_seed"),
+        ("self . size ( )", "size"),
+        ("let prng_seed_byte_count = std :: mem :: size_of :: < PRNGSeed > ( ) ;\n"
+         "let seed_ptr = self . poly_component_mut ( 1 , 0 ) . as_mut_ptr ( ) . offset ( 1 ) as * mut u8 ;\n"
+         "let seed_slice = std :: slice :: from_raw_parts ( seed_ptr , prng_seed_byte_count ) ;\n"
+         "let mut seed = [ 0_u8 ; util :: HE_PRNG_SEED_BYTES ] ;\n"
+         "seed . copy_from_slice ( & seed_slice [ .. util :: HE_PRNG_SEED_BYTES ] ) ;\n"
+         "let prng_seed : PRNGSeed = PRNGSeed ( seed ) ;",
+         "let comp = & data [ %s .. %s + cn ] ; let prng_seed = __le_bytes ( data , %s + 1 , %d ) ;" % (OFF, OFF, OFF, seed_words)),
+        ("context . get_context_data ( self . parms_id ( ) ) . unwrap ( ) . parms ( )", "parms"),
+        ("self . poly_mut ( 1 )", "& mut data [ 1 * %s .. ( 1 + 1 ) * %s ]" % (D, D)),
+        ("}\nself\n}", "}\n}"),
+    ]
 WORDS = ("u8", "u32", "u64", "usize")
 ID = re.compile(r"[A-Za-z_][A-Za-z0-9_']*")
 
@@ -140,6 +168,12 @@ class Gen:
                 norm = norm.replace(key, rep)
         for cname, crel in ent.get("consts", {}).items():      # `[v; CONST]`: the parser wants a literal repeat length
             norm = re.sub(r"\[ (\S+) ; %s \]" % cname, lambda m: "[ %s ; %d ]" % (m.group(1), self.const(crel, cname)), norm)
+        if ent.get("skeleton") == "expand_seed":
+            nb = self.const("src/util/basic.rs", "HE_PRNG_SEED_BYTES")
+            if nb % 8: self.fail("HE_PRNG_SEED_BYTES is not a multiple of 8")
+            for key, rep in expand_readings(nb // 8):
+                if norm.count(key) != 1: self.fail(f"fn {name}: skeleton reading `{key}` matches {norm.count(key)} times")
+                norm = norm.replace(key, rep)
         norm, np_ = PTR_READ.subn(lambda m: "__read_le ( self . buffer , self . buffer_current , %d )" % (int(m.group(1)) // 8), norm)
         toks = T.tokenize(norm, line)
         p = T.Parser(toks, name)
@@ -251,6 +285,11 @@ class Lower:
             if at == "bool": return f"(¬ {a})", "bool"
             if at == "usize": return f"(notW {a})", "usize"
             self.fail(f"`!` on {at}")
+        if k == "ref" and not e[1] and e[2][0] == "index" and e[2][2][0] == "range":
+            b, bt = self.ex(e[2][1], env, ops)
+            if bt not in ("bytes", "words"): self.fail("sub-slice of a value that is not a buffer")
+            lo, _ = self.ex(e[2][2][1], env, ops, "usize"); hi, _ = self.ex(e[2][2][2], env, ops, "usize")
+            t = self.tmp(bt); ops.append(f"let {t} ← slice {b} {lo} {hi}"); return t, bt
         if k == "structlit":
             st = self.g.struct
             if st is None or e[1] not in ("Self", st["name"]): self.fail(f"struct literal `{e[1]}`")
@@ -386,6 +425,14 @@ class Lower:
         if name == "__read_le":
             b, _ = self.ex(args[0], env, ops); p, _ = self.ex(args[1], env, ops); w = args[2][1]
             t = self.tmp("u32" if w == 4 else "u64"); ops.append(f"let {t} ← readLE {b} {p} {w}"); return t, self.types[t]
+        if name == "__le_bytes":
+            b, bt = self.ex(args[0], env, ops); o, _ = self.ex(args[1], env, ops, "usize")
+            if bt != "words": self.fail("__le_bytes of a value that is not a word buffer")
+            t = self.tmp("bytes"); ops.append(f"let {t} ← leBytes {b} {o} {args[2][1]}"); return t, "bytes"
+        if name == "BlakeRNG::from_seed" and len(args) == 1 and "from_seed" in self.g.sigs:
+            a, at = self.ex(args[0], env, ops)
+            if at != "bytes": self.fail("BlakeRNG::from_seed of a value that is not a byte array")
+            t = self.tmp("self"); ops.append(f"let {t} ← {self.g.sigs['from_seed']['lean']} {a}"); return t, "self"
         if name == "__xof":
             s, _ = self.ex(args[0], env, ops); c, _ = self.ex(args[1], env, ops); self.uses_xof = True
             return f"(xof {s} {c})", "bytes"
@@ -493,6 +540,7 @@ class Lower:
             if want is not None and at != want: self.fail(f"`let {pat}: {want}` initialised with a value of type {at}", ln)
             if at in ("moduli",) or (at == "usize" and a == env.get("#n", {}).get("lean")) and not mut:
                 env[pat] = {"lean": a, "ty": at, "mut": False}; self.namemap.append(f"{a}={pat}"); return False      # alias of an input
+            if at == "selfval": at = "self"
             v = self.newvar(pat, at); env[pat] = {"lean": v, "ty": at, "mut": mut}
             ops.append(f"let {v} := {a}"); return False
         if kind == "assign":
@@ -613,6 +661,21 @@ class Lower:
                 a, _ = self.ex(args[0][2][2][1], env, ops, "usize"); b, _ = self.ex(args[0][2][2][2], env, ops, "usize")
                 t = self.tmp("bytes"); ops.append(f"let {t} ← slice {sb} {a} {b}")
                 ops.append(f"let {d} ← copySlice {d} {lo} {hi} {t}"); return
+        if e[0] == "call" and "::".join(e[1]) in ("util::rlwe::sample::uniform",) and len(e[2]) == 3:
+            fnm = e[1][-1]; sg = self.g.sigs.get(fnm)
+            a_rng, a_parms, a_dst = e[2]
+            if sg is None or sg["kind"] != "sampler": self.fail(f"call of `{fnm}` before its translation", ln)
+            if not (a_rng[0] == "ref" and a_rng[1] and a_rng[2][0] == "path" and env.get(a_rng[2][1][0], {}).get("ty") == "self" and env[a_rng[2][1][0]].get("mut")):
+                self.fail("sampler call: `&mut <BlakeRNG local>` expected", ln)
+            if not (a_parms[0] == "path" and env.get(a_parms[1][0], {}).get("ty") == "parms"): self.fail("sampler call: parameters argument", ln)
+            if not (a_dst[0] == "ref" and a_dst[1] and a_dst[2][0] == "index" and a_dst[2][2][0] == "range" and a_dst[2][1][0] == "path"
+                    and env.get(a_dst[2][1][1][0], {}).get("ty") == "words" and env[a_dst[2][1][1][0]].get("mut")): self.fail("sampler call: `&mut buf[a..b]` expected", ln)
+            g = env[a_rng[2][1][0]]["lean"]; d = env[a_dst[2][1][1][0]]["lean"]
+            lo, _ = self.ex(a_dst[2][2][1], env, ops, "usize"); hi, _ = self.ex(a_dst[2][2][2], env, ops, "usize")
+            t = self.tmp("words"); t2 = self.tmp("words")
+            ops.append(f"let {t} ← slice {d} {lo} {hi}")
+            ops.append(f"let ({g}, {t2}) ← {sg['lean']} B {g} {env['#qs']['lean']} {env['#n']['lean']} {t}")
+            ops.append(f"let {d} := splice {d} {lo} {t2}"); self.uses_blake_ops = True; return
         if e[0] == "call" and "::".join(e[1]) == "util::set_zero_uint" and len(e[2]) == 1 and e[2][0][0] == "path":
             v = env.get(e[2][0][1][0])
             if v is None or v["ty"] != "words" or not v.get("mut"): self.fail("set_zero_uint argument", ln)
@@ -674,7 +737,8 @@ class Lower:
         return f"({lean} : {self.lean_ty(self.types[lean])})"
 
     def head(self):
-        return ("{σ : Type} (G : RngOps σ) " if self.fn["generic"] else "") + ("(xof : XofL) " if self.has_self else "")
+        return ("{σ : Type} (G : RngOps σ) " if self.fn["generic"] else "") + ("(xof : XofL) " if self.has_self else "") + \
+               (f"(B : RngOps {self.g.struct['name']}) " if self.ent.get("skeleton") else "")
 
     def head_args(self):
         return ("G " if self.fn["generic"] else "") + ("xof " if self.has_self else "")
@@ -787,6 +851,8 @@ class Lower:
             elif pt == ("ref", True, ("arr", ("name", "u8"), None)): ty = "bytes"; isout = True
             elif pt == ("ref", True, ("arr", ("name", "u64"), None)): ty = "words"; isout = True
             elif pt[0] == "name" and pt[1] in WORDS: ty = pt[1]; isout = False
+            elif pt == ("name", "bool"):
+                env[pn] = {"lean": f"({ln} = true)", "ty": "bool", "mut": False}; binders.append(f"({ln} : Bool)"); kinds.append("bool"); continue
             elif pt[0] == "name" and fn.get("aliases", {}).get(pt[1]) == "PRNGSeed": ty = "bytes"; isout = False      # `seed: Self::Seed`, `type Seed = PRNGSeed;`
             else: self.fail(f"parameter `{pn}: {pt}`")
             env[pn] = {"lean": ln, "ty": ty, "mut": isout or mut}
@@ -811,8 +877,9 @@ class Lower:
         doc = [f"/-- {fn['file']}:{fn['line0']}-{fn['line1']}  `{fn['name']}`" + (f" (impl {self.ent['impl']})" if self.ent.get("impl") else "") +
                f"  sha256/64={fn['hash']}", f"    names: {' '.join(self.namemap)}" + (f"\n    model: {self.ent['model']}" if self.ent.get("model") else "") + " -/"]
         d = doc + [f"def {self.name} {self.head()}{' '.join(binders)} : R ({rty}) := do"] + self.render(ops, 0)
-        kind = "other"
+        kind = "sampler" if fn["generic"] and kinds == ["rng", "parms", "words"] and self.ret_ty is None else "other"
         if self.has_self and len(fn["params"]) == 1 and self.ret_ty is None: kind = "self_unit"
+        if self.ret_ty == "selfval": kind = "ctor"
         if not self.has_self and not fn["generic"] and len(kinds) == 1 and self.ret_ty: kind = "pure_fn"
         self.g.sigs[fn["name"]] = {"lean": self.name, "kind": kind, "params": kinds, "ret": self.ret_ty}
         return "\n".join(self.aux) + ("\n" if self.aux else "") + "\n".join(d) + "\n"
